@@ -6,14 +6,17 @@ class C01(Prop):
     rule = ("cases: random programs for 2-5 threads, random bursty schedule then round-robin; suites: raw AtomicMove ring, raw FullSyncMove ring "
             "(publish/consume/length), movable atomic and movable full-sync Uni channels (send/send_with/poll/executor-driven streams/cancel_all/length, "
             "N in {2,4,8}, MAX_STREAMS in {1,2}, 1..MAX_STREAMS streams); non-trivial = a context switch inside another thread's operation AND a full/empty/pending answer; distinct by sha1")
-    trusted_base = ["modelled, not verified: the crossbeam and the two zero-copy Uni channels are not yet in a lock-step suite of this property (their ring / pool components are)"]
+    trusted_base = ["the crossbeam and the two zero-copy Uni channels have no lock-step model yet: they run the same generated programs and schedules through the same scheduler and are judged by the exactly-once oracle only (their ring / pool components are in lock-step under C13 / C18)"]
     assumptions = ["payload type u32 (no destructor)", "threads are OS threads serialised by the baton scheduler: one shared access per grant"]
     def suites(self, tier, rng):
         n = 150 if tier == "quick" else 2500
         return [Suite("ring", ringgen.HEADER, [ringgen.gen_case(rng) for _ in range(n)]),
                 Suite("fsring", ringgen.HEADER, [ringgen.gen_case(rng, kind="fsring") for _ in range(n)]),
                 Suite("uni_move_atomic", unigen.HEADER, [unigen.gen_case(rng, "move_atomic") for _ in range(n)]),
-                Suite("uni_move_full_sync", unigen.HEADER, [unigen.gen_case(rng, "move_full_sync") for _ in range(n)])]
+                Suite("uni_move_full_sync", unigen.HEADER, [unigen.gen_case(rng, "move_full_sync") for _ in range(n)]),
+                Suite("uni_move_atomic_entry_points", unigen.XHEADER, [unigen.gen_entry_case(rng, "move_atomic") for _ in range(n)]),
+                Suite("uni_move_full_sync_async", unigen.HEADER, [unigen.gen_entry_case(rng, "move_full_sync") for _ in range(n // 3)])
+                ] + unigen.oracle_only_suites(rng, n // 2)
     def oracle(self, case, recs):
         if "chan" in case.meta: return unigen.uni_oracle_exactly_once(case, recs)
         return ringgen.oracle_exactly_once(case, recs)
@@ -23,4 +26,4 @@ class C01(Prop):
     def parse_replay(self, text):
         lines = [l for l in text.splitlines() if l.strip() and not l.startswith("#")]
         cases = [unigen.parse_case_line(l) if l.startswith("uni ") else ringgen.parse_case_line(l) for l in lines]
-        return Suite("replay", unigen.HEADER + "\n" + ringgen.HEADER, cases)
+        return Suite("replay", unigen.XHEADER + "\n" + ringgen.HEADER, cases)
